@@ -476,6 +476,14 @@ func (x *Exec) execDynamicCall(instr ssa.Value, c *ssa.CallCommon, st *State, pc
 	for _, a := range c.Args {
 		args = append(args, x.operand(a, st))
 	}
+	// function values of an externally declared function type (e.g. context.CancelFunc)
+	if nt, ok := c.Value.Type().(*types.Named); ok {
+		name := "dyn:" + canonType(nt)
+		if x.eng.externFor(name) != nil {
+			x.applyExtern(instr, name, sig.Results(), args, nil, st, pc, pos)
+			return
+		}
+	}
 	// candidates: every contract function with an identical signature
 	type cand struct {
 		fn *ssa.Function
@@ -649,6 +657,11 @@ func (x *Exec) execSelect(i *ssa.Select, st *State, pc Term) {
 	}
 	x.tuples[i] = tup
 	x.dropped["select at "+x.posStr(i.Pos())+": modelled as a nondeterministic choice with unconstrained received values; blocking not modelled"] = true
+}
+
+func (x *Exec) recvEnvG(v Term, t types.Type, guard Term, st *State) {
+	g := x.vc.define("recvguard", guard)
+	x.recvEnv(v, t, g, st)
 }
 
 // recvEnv applies the function's `assume env` clauses to a received value (bound as `recv`).
